@@ -1324,6 +1324,30 @@ theorem setBlockTypeF_spec (S : Schema) (st st' : PSt) (f t : Nat) (ty : TypeId)
   obtain ⟨skip', X', hr, htoks, _⟩ := setBlockType_spec S st st' f t ty attrs hlog hms hnorm hty hblocks hb
   exact ⟨skip', X', hr, htoks⟩
 
+/-- **`set_block_type` to a plain type** (`Schema.plainType`: closed automaton, every state a valid
+    end — `inline*`, `text*`, …; the documented ordinary textblock types): the Fitter is never
+    consulted, whatever the document — no filler is ever needed -/
+theorem setBlockTypeF_plain_noask (S : Schema) (st st' : PSt) (f t : Nat) (ty : TypeId) (attrs : Attrs)
+    (hp : S.plainType ty = true) (h : st.setBlockTypeF S f t ty attrs = .ok st') : st'.fits = st.fits :=
+  PSt.setBlockTypeF_fits_of_plain S st st' f t ty attrs hp h
+
+/-- … hence `setBlockType_spec` holds for the plugged-in `set_block_type` to a plain type with **no
+    hypothesis about the Fitter** at all -/
+theorem setBlockTypeF_spec_plain (S : Schema) (st st' : PSt) (f t : Nat) (ty : TypeId) (attrs : Attrs)
+    (hlog : st.fits = []) (hp : S.plainType ty = true) (hms : st.tr.maps.length = st.tr.steps.length)
+    (hnorm : fnorm st.tr.doc.kids = true)
+    (hty : (S.nodeType ty).isLeaf = false)
+    (hblocks : ∀ v ∈ S.docVisits st.tr.doc f t, S.isTextblockN v.node = true → v.node.isLeaf = false)
+    (h : st.setBlockTypeF S f t ty attrs = .ok st') :
+    ∃ skip' X', SbtRun S ty attrs (ftoks st.tr.doc.kids) (S.docVisits st.tr.doc f t) 0 [] skip' X' ∧
+      ftoks st'.tr.doc.kids = X' ++ (ftoks st.tr.doc.kids).drop skip' :=
+  setBlockTypeF_spec S st st' f t ty attrs hlog
+    (by rw [setBlockTypeF_plain_noask S st st' f t ty attrs hp h, hlog]) hms hnorm hty hblocks h
+
+/-- `paragraph: inline*` and `title: text*` of the example schema above are plain, `doc: block+` is not -/
+example : sbExSchema.plainType 1 = true ∧ sbExSchema.plainType 2 = true ∧ sbExSchema.plainType 0 = false := by
+  decide
+
 /-- the check the tie evaluates on the real documents before and after every completed
     `clear_incompatible` (`clearKeepsCheck`, PM/TypePlanFit.lean; request `clearKeeps`) is the
     conclusion of `clearIncompatibleF_keeps`: on a model run its first component is true, and all
@@ -1421,7 +1445,9 @@ example : keptState fxSchema 3 [] 0 = 0 ∧ (fxSchema.dfa 3).validEnd 0 = false 
   (`fit_text`), not that it carries all of it, nor anything about leaf nodes.  `Z` is therefore
   characterised by: the tokens of the slice of the step `replaceStep` returns, no text.
 * **`set_block_type` runs that consult the Fitter and still succeed.**  `setBlockTypeF_spec` covers
-  the runs with an empty log.  When the Fitter is consulted it places the fillers behind the closed
+  the runs with an empty log, `setBlockTypeF_spec_plain` shows that every run to a plain target type
+  is one (no hypothesis about the Fitter left).  For the other target types (content that must not
+  be empty or must start with a particular child): when the Fitter is consulted it places the fillers behind the closed
   block (the Finding above), the mapped end of the block then lies behind the inserted structure and
   the `ReplaceAroundStep` of the retyping has no flat gap: all such runs in the generated cases end
   in `TransformError` ("Gap is not a flat range" / invalid content).  That *every* such run fails is
